@@ -323,6 +323,7 @@ static bool same_tm(const tm& a, const tm& b) {
     return a.tm_year == b.tm_year && a.tm_mon == b.tm_mon && a.tm_mday == b.tm_mday && a.tm_hour == b.tm_hour && a.tm_min == b.tm_min && a.tm_sec == b.tm_sec;
 }
 
+static FILE* g_devnull = NULL;
 static void run_cut(int fidx, size_t cut) {
     const CorpusFile& f = CORPUS[fidx];
     if (WPATH.empty()) WPATH = R->scratch + fmt("/cut.%d", (int)getpid());
@@ -337,6 +338,7 @@ static void run_cut(int fidx, size_t cut) {
     };
     if (f.kind == "gds") {
         for (int rep = 0; rep < 3; rep++) {
+            error_logger = rep == 1 ? g_devnull : NULL;   // the second of the three calls runs with logging enabled (to /dev/null)
             {   // full load, three parameterisations
                 for (int mode = 0; mode < 4; mode++) {   // mode 3: the caller passes no error pointer - the empty result is then the only failure signal
                     ErrorCode ec = ErrorCode::NoError;
@@ -396,6 +398,7 @@ static void run_cut(int fidx, size_t cut) {
             tm nt = FIXED_TM;
             nt.tm_year = 138; nt.tm_mon = 0; nt.tm_mday = 19;
             for (int rep = 0; rep < 2; rep++) {
+                error_logger = rep == 1 ? g_devnull : NULL;
                 ErrorCode ec = ErrorCode::NoError;
                 gds_timestamp(path, &nt, &ec);
                 std::string after = slurp(WPATH);
@@ -415,6 +418,7 @@ static void run_cut(int fidx, size_t cut) {
         }
     } else {
         for (int rep = 0; rep < 3; rep++) {
+            error_logger = rep == 1 ? g_devnull : NULL;   // the second of the three calls runs with logging enabled (to /dev/null)
             {
                 double p = 0;
                 oas_precision(path, p);
@@ -432,6 +436,7 @@ static void run_cut(int fidx, size_t cut) {
             }
         }
     }
+    error_logger = NULL;
     R->count("cases");
     if (inside && cut > 0) R->count("nontrivial");
     R->outcome("trunc." + f.kind, fmt("%s %s", f.name.c_str(), inside ? "inside" : "boundary"));
@@ -441,6 +446,8 @@ int main(int argc, char** argv) {
     Run run("C18", argc, argv);
     R = &run;
     error_logger = NULL;
+    g_devnull = fopen("/dev/null", "w");
+    if (!g_devnull) run.internal_error("cannot open /dev/null");
     memset(&FIXED_TM, 0, sizeof FIXED_TM);
     FIXED_TM.tm_year = 101; FIXED_TM.tm_mon = 1; FIXED_TM.tm_mday = 3; FIXED_TM.tm_hour = 4; FIXED_TM.tm_min = 5; FIXED_TM.tm_sec = 6;
     build_corpus(run.thorough());
@@ -471,8 +478,8 @@ int main(int argc, char** argv) {
     std::vector<std::string> names;
     for (auto& f : CORPUS) names.push_back(jstr(fmt("%s (%zu bytes)", f.name.c_str(), f.bytes.size())));
     run.note("corpus: " + jarr(names));
-    run.sample("trunc", jobj({{"file", jstr(CORPUS[0].name)}, {"prefix_length", jint(37)}, {"readers", jstr("read_gds x3 modes, read_rawcells, gds_info, gds_units, gds_timestamp (get, set), each 3 times")}}));
-    run.sample("trunc", jobj({{"file", jstr(CORPUS.back().name)}, {"prefix_length", jint(15)}, {"readers", jstr("oas_precision, oas_validate, each 3 times")}}));
+    run.sample("trunc", jobj({{"file", jstr(CORPUS[0].name)}, {"prefix_length", jint(37)}, {"readers", jstr("read_gds x3 modes, read_rawcells, gds_info, gds_units, gds_timestamp (get, set), each 3 times (error logger: off, on, off)")}}));
+    run.sample("trunc", jobj({{"file", jstr(CORPUS.back().name)}, {"prefix_length", jint(15)}, {"readers", jstr("oas_precision, oas_validate, each 3 times (error logger: off, on, off)")}}));
     run.bound("trunc", fmt("every prefix length 0..n-1 of %zu corpus files", CORPUS.size()), ok, (int64_t)idx.size());
     return run.finish();
 }
